@@ -36,6 +36,21 @@ func osvVersion(eco string, p int, variant string) string {
 	if p == 0 {
 		return "0"
 	}
+	if variant == "c" {
+		// spelling c: the position just above the "0" sentinel is a version that sorts BELOW the ecosystem's
+		// zero version (pre-release / dev release of 0): OSV's "0" still precedes it
+		if p == 1 {
+			switch eco {
+			case "npm":
+				return "0.0.0-alpha"
+			case "Maven":
+				return "0-alpha-1"
+			default:
+				return "0.dev1"
+			}
+		}
+		variant = "a"
+	}
 	v := p / 2
 	odd := p%2 == 1
 	switch eco {
@@ -85,7 +100,7 @@ func init() {
 				return nil, err
 			}
 			res := map[string]any{"i": idx}
-			for _, variant := range []string{"a", "b"} {
+			for _, variant := range []string{"a", "b", "c"} {
 				vuln := &osvschema.Vulnerability{ID: "V-1"}
 				for _, a := range c.Affected {
 					af := osvschema.Affected{}
